@@ -177,12 +177,30 @@ Positions == {
   P(MX \o <<"<row>", "[*]">>, "tmpl", "", kStr),
   P(MX \o <<"<row>", "[*]", "<key>">>, "tmpl", "", kStr),
   P(MX \o <<"<row>", "[*]", "[*]">>, "tmpl", "", kStr),
+  \* the same kinds of element after an EARLIER sibling that is an expression of type any (the code merges the
+  \* element types while it walks the siblings), and elements of sequences / mappings nested one level deeper
+  P(MX \o <<"<row>", "[*]">>, "tmpl", "after-any", kStr),
+  P(MX \o <<"<row>", "[*]", "<key>">>, "tmpl", "after-any", kStr),
+  P(MX \o <<"<row>", "[*]", "[*]">>, "tmpl", "after-any", kStr),
+  P(MX \o <<"<row>", "[*]", "[*]", "[*]">>, "tmpl", "after-any", kStr),
+  P(MX \o <<"<row>", "[*]", "<key>", "[*]">>, "tmpl", "after-any", kStr),
+  P(MX \o <<"<row>", "[*]", "<key>", "<key>">>, "tmpl", "after-any", kStr),
   P(MX \o <<"include">>, "one", "expr", kStr),
   P(MX \o <<"include", "[*]">>, "one", "expr", kStr),
   P(MX \o <<"include", "[*]", "<key>">>, "tmpl", "", kStr),
+  P(MX \o <<"include", "[*]", "<key>">>, "tmpl", "after-any", kStr),
+  P(MX \o <<"include", "[*]", "<key>", "[*]">>, "tmpl", "", kStr),
+  P(MX \o <<"include", "[*]", "<key>", "[*]">>, "tmpl", "after-any", kStr),
+  P(MX \o <<"include", "[*]", "<key>", "<key>">>, "tmpl", "", kStr),
+  P(MX \o <<"include", "[*]", "<key>", "<key>">>, "tmpl", "after-any", kStr),
   P(MX \o <<"exclude">>, "one", "expr", kStr),
   P(MX \o <<"exclude", "[*]">>, "one", "expr", kStr),
   P(MX \o <<"exclude", "[*]", "<key>">>, "tmpl", "", kStr),
+  P(MX \o <<"exclude", "[*]", "<key>">>, "tmpl", "after-any", kStr),
+  P(MX \o <<"exclude", "[*]", "<key>", "[*]">>, "tmpl", "", kStr),
+  P(MX \o <<"exclude", "[*]", "<key>", "[*]">>, "tmpl", "after-any", kStr),
+  P(MX \o <<"exclude", "[*]", "<key>", "<key>">>, "tmpl", "", kStr),
+  P(MX \o <<"exclude", "[*]", "<key>", "<key>">>, "tmpl", "after-any", kStr),
   P(<<"jobs", J, "continue-on-error">>, "one", "", "jobs.<job_id>.continue-on-error"),
   P(<<"jobs", J, "timeout-minutes">>, "one", "", "jobs.<job_id>.timeout-minutes"),
   P(CT, "tmpl", "", kCont),
